@@ -32,6 +32,8 @@ structure DedCtx (S : Schema) (g fa : String → Val → Bool) (r : Rec) : Prop 
   ok : RecOk S g r
   dec : ∀ ty bs v, r.dec ty bs = .ok v → fa ty v = true → g ty v = true ∧ ∃ b, r.enc ty v = .ok b
   shape : ∀ ty bs v, r.dec ty bs = .ok v → ShapeOf S ty v
+  enumOk : ∀ ty bs v w s bw ms, r.dec ty bs = .ok v → S.find ty = some (.enum w s bw ms) →
+    ∃ i, v = .int i ∧ enumAdmits bw ms i = true
 
 theorem DedCtx.member {S : Schema} {g fa : String → Val → Bool} {r : Rec} (h : DedCtx S g fa r) {ty : String} {v : Val}
     (hd : FromDec r ty v) (hf : fa ty v = true) :
@@ -83,16 +85,14 @@ theorem earlyFrom_at (xs : List Field) : ∀ (p0 : List Field) (f : Field) (ys :
 
 /-- a member together with the members before and after it -/
 theorem field_pos {S : Schema} {d : StructDef} (hwf : wfFieldsFrom S d [] d.fields = true)
-    (hcov : coveredFrom S [] d.fields = true) (hearly : earlyFrom [] d.fields = true) {f : Field} (hf : f ∈ d.fields) :
+    (hcov : coveredFrom S [] d.fields = true) {f : Field} (hf : f ∈ d.fields) :
     ∃ pre post, d.fields = pre ++ f :: post ∧ wfFieldAt S d pre f post.isEmpty = true ∧
-      condCovered S pre f post = true ∧ (∀ c, f.cond = some c → (lookupField pre c.field).isSome = true) := by
+      condCovered S pre f post = true := by
   obtain ⟨pre, post, hsplit⟩ := List.append_of_mem hf
-  refine ⟨pre, post, hsplit, ?_, ?_, ?_⟩
+  refine ⟨pre, post, hsplit, ?_, ?_⟩
   · have := wfFieldsFrom_at pre [] f post (by rw [← hsplit]; exact hwf)
     simpa using this
   · have := coveredFrom_at pre [] f post (by rw [← hsplit]; exact hcov)
-    simpa using this
-  · have := earlyFrom_at pre [] f post (by rw [← hsplit]; exact hearly)
     simpa using this
 
 /-- a reference to an earlier unconditional member resolves in the whole member list -/
